@@ -307,31 +307,43 @@ var localEndpoints = []string{"10.1.2.3:3868", "10.1.2.3:3868", "127.0.0.1:3868"
 	"10.0.0.3/10.0.0.4:3868", "[fe80::1%eth0]:3868", "[fe80::1%eth0]/10.0.0.3:3868", "10.0.0.3/[fe80::1%eth0]:3868",
 	"10.0.0.3/[2001:db8::2]/192.0.2.77:3868", "[fe80::2%lo0]/[2001:db8::5]/10.0.0.9:5868"}
 
-// wantIPs: the configured addresses, else the addresses of the local endpoint in the order the
-// endpoint lists them (written independently of the library: port after the last colon,
-// addresses separated by '/', brackets and %zone removed).
+// wantIPs: the configured addresses, else the addresses of the local endpoint that a peer can
+// use, in the order the endpoint lists them: an address that carries a %zone is valid on one
+// link only and - like the loopback - is announced only when the endpoint has nothing better
+// (the repository's own TestClient_Conn_LocalAddresses_Complex expects just that). Written
+// independently of the library: port after the last colon, addresses separated by '/',
+// brackets removed. The generated endpoints never make the choice among several last resorts
+// matter.
 func (c Case) wantIPs() [][]byte {
 	if len(c.ConfiguredIPs) > 0 {
 		return c.ConfiguredIPs
 	}
 	hosts := c.LocalAddr[:strings.LastIndexByte(c.LocalAddr, ':')]
-	var out [][]byte
+	var usable, lastResort [][]byte
 	for _, h := range strings.Split(hosts, "/") {
 		h = strings.Trim(h, "[]")
+		zoned := false
 		if i := strings.IndexByte(h, '%'); i >= 0 {
-			h = h[:i]
+			h, zoned = h[:i], true
 		}
 		ip := net.ParseIP(h)
 		if ip == nil {
 			continue
 		}
+		b := []byte(ip.To16())
 		if v4 := ip.To4(); v4 != nil {
-			out = append(out, []byte(v4))
+			b = []byte(v4)
+		}
+		if zoned || ip.IsLoopback() {
+			lastResort = append(lastResort, b)
 		} else {
-			out = append(out, []byte(ip.To16()))
+			usable = append(usable, b)
 		}
 	}
-	return out
+	if len(usable) == 0 && len(lastResort) > 0 {
+		return lastResort[:1]
+	}
+	return usable
 }
 
 // checkCER: the request carries the configured identity, the host addresses and every advertised application.
